@@ -615,12 +615,31 @@ def positions(repo: Repo, rep, P: str):
                 continue
             for s_ in ast.walk(st):
                 if isinstance(s_, ast.Subscript) and isinstance(s_.ctx, (ast.Store, ast.Del)) and norm(s_.value) == "self.modules":
-                    bad.append((st, tests))
+                    if isinstance(s_.slice, ast.Slice):
+                        # a slice store at the end of the list (`L[len(L):] = [m]`, `L[n:n + 1] = [m]` with n = len(L)) is an append
+                        lo_ = resolve_names(s_.slice.lower, ldefs) if s_.slice.lower is not None else None
+                        if lo_ is not None and norm(lo_) == "len(self.modules)" and isinstance(s_.ctx, ast.Store):
+                            continue
+                        unread.append((st, tests))
+                    else:
+                        bad.append((st, tests))
                 if isinstance(s_, ast.Call) and isinstance(s_.func, ast.Attribute) and norm(s_.func.value) == "self.modules" \
                         and s_.func.attr in ("insert", "pop", "remove", "sort", "reverse", "clear"):
+                    if s_.func.attr == "insert" and s_.args:
+                        at_ = resolve_names(s_.args[0], ldefs)
+                        if norm(at_) == "len(self.modules)":
+                            continue                                   # insert at the end is an append
+                        if not isinstance(at_, ast.Constant):
+                            unread.append((st, tests))
+                            continue
                     bad.append((st, tests))
+    from ..packed import single_defs, resolve_names
+    ldefs = single_defs(fn)
+    unread: List[Tuple[ast.stmt, List[str]]] = []
     scan(fn.body, [])
     definite = [(st, t) for st, t in bad if not (set(t) & value_tests)]
+    if not definite and unread:
+        bad = bad + unread
     if definite:
         st = definite[0][0]
         rep.violation(f"{P}.R4", f"{prel}:Project.attach_module", norm(st)[:160],
